@@ -227,6 +227,29 @@ Theorem C09_get_sites_generated :
 Proof. exact (conj gen_get_sites (conj gen_stop_sites get_sites_flags)). Qed.
 Print Assumptions C09_get_sites_generated.
 
+(* relayItems.Get and relayItems.deleteTomb themselves, statement by statement as regenerated, and
+   the only scheduled collection of relay.go (Entomb schedules deleteTomb), ARE what the model's
+   items_get / items_delete_tomb / LGc describe: Get touches no timer unless the item is found
+   AND stopTimeout is set; the collection deletes a tombstone only *)
+Theorem C09_get_and_collection_generated :
+  relay_get_body = rs_getbody_rows /\ relay_deletetomb_body = rs_tombbody_rows /\ relay_gc_sites = rs_gc_rows /\
+  (forall (st : state) (t : key) (stop : bool),
+     match lookup key_eqb t (items st) with
+     | None => items_get st t stop = (st, None)
+     | Some it =>
+         if stop then items_get st t stop = (fst (timer_stop st (it_tm it)), Some (it, snd (timer_stop st (it_tm it))))
+         else items_get st t stop = (st, Some (it, false))
+     end) /\
+  (forall st t,
+     match lookup key_eqb t (items st) with
+     | None => items_delete_tomb st t = st
+     | Some it =>
+         if it_tomb it then items_delete_tomb st t = timer_release (set_items st (remove key_eqb t (items st))) (it_tm it)
+         else items_delete_tomb st t = st
+     end).
+Proof. exact (conj gen_get_body (conj gen_deletetomb_body (conj gen_gc_sites (conj items_get_cases items_delete_tomb_cases)))). Qed.
+Print Assumptions C09_get_and_collection_generated.
+
 (* ... and each lookup instruction of the model is items_get with the flag of its generated row *)
 Theorem C09_get_sites_model : forall cf st room,
   (forall k f e c b, site_stop relay_get_sites fn_getDestination (fin_of f) = Some b ->
